@@ -158,13 +158,37 @@ fn rand_smaller(rng: &mut Rng, t: &Arc<Final>) -> Arc<Final> {
 pub fn record(runs: usize, path: &str) {
     let mut rng = Rng::from_env(10);
     let mut out = Out::file(path);
-    for _ in 0..runs {
+    for run in 0..runs {
         out.emit(&json!({"ev": "reset"}));
         let mut pool: Vec<Value> = vec![];
         let nops = rng.range(3, 9);
-        for _ in 0..nops {
+        // every fourth run follows a script: parts taken out of a product at a byte-aligned, non-zero offset of the
+        // shared buffer (8, 16, 24 bits in), then wrapped into sums, paired again and pruned -- the tag bit of a sum is
+        // written in front of the part, in the byte before it
+        let mut script: Vec<J> = vec![];
+        if run % 4 == 3 {
+            let first = Final::two_two_n(rng.range(3, 5)).unwrap();          // 8 or 16 bits
+            let lead = if rng.bool() { first.clone() } else { Final::product(first.clone(), Final::two_two_n(3).unwrap()) };
+            let part = if rng.bool() { Final::two_two_n(rng.range(0, 5)).unwrap() } else { rand_ty(&mut rng, 2) };
+            let t = Final::product(lead, part.clone());
+            let v = rand_tree(&mut rng, &t);
+            script.push(json!(["build", ty_j(&t), v]));
+            script.push(json!(["snd", 1]));
+            let other = if rng.bool() { Final::unit() } else { rand_smaller(&mut rng, &part) };
+            let as_left = rng.bool();
+            script.push(if as_left { json!(["left", 2, ty_j(&other)]) } else { json!(["right", ty_j(&other), 2]) });      // 3
+            script.push(json!(["left", 1, ty_j(&Final::unit())]));                                                        // 4
+            script.push(json!([if as_left { "asleft" } else { "asright" }, 3]));                                          // 5
+            script.push(json!(["product", 2, 3]));                                                                        // 6
+            let t3 = if as_left { Final::sum(part.clone(), other.clone()) } else { Final::sum(other.clone(), part.clone()) };
+            script.push(json!(["prune", 3, ty_j(&rand_smaller(&mut rng, &t3))]));
+            let whole = Final::sum(t.clone(), Final::unit());
+            script.push(json!(["prune", 4, ty_j(&rand_smaller(&mut rng, &whole))]));
+            script.reverse();
+        }
+        for _ in 0..(if script.is_empty() { nops } else { script.len() }) {
             let pick = |rng: &mut Rng, pool: &Vec<Value>| 1 + rng.below(pool.len());
-            let op: J = if pool.is_empty() || rng.chance(1, 4) {
+            let op: J = if let Some(op) = script.pop() { op } else if pool.is_empty() || rng.chance(1, 4) {
                 match rng.below(5) {
                     0 => json!(["unit"]),
                     1 => { let n = rng.below(7); let bits: Vec<u8> = (0..(1usize << n)).map(|_| rng.below(2) as u8).collect(); json!(["word", n, bits]) }
